@@ -229,7 +229,7 @@ class IndentAndNameChecker(BaseChecker):
                                               |(osource)
                                               |(rsource)
                                               |(orsource)
-                                          )
+                                          )(?![^\s"(])  # the keyword itself, not a word that begins with it
                                        """,
             re.X,
         )
